@@ -8,7 +8,7 @@ from ..harness import World, consume_with_timeout, dropped_consume_results, exec
 
 LEVEL = "exploration"
 PLAN = {
-    "quick": {"mem": 700, "redis": 500, "rabbit": 400},
+    "quick": {"mem": 1200, "redis": 900, "rabbit": 700},
     "thorough": {"mem": 30000, "redis": 25000, "rabbit": 15000},
 }
 BUDGET = {"quick": 50, "thorough": 900}
